@@ -421,6 +421,12 @@ def gen_c02(seed, tier):
             # a second, plain assertion next to the encrypted one in the same Response
             plain_signed = r.chance(0.6)
             pa = dict(p, dialect={"plain_next_to_encrypted": {"signed": plain_signed}})
+            if r.chance(0.3):
+                # ... inside the EncryptedAssertion element, behind the EncryptedData
+                pa["dialect"]["plain_next_to_encrypted"]["where"] = "wrapper"
+                if faulty and plain_signed and r.chance(0.6):
+                    pa["dialect"]["plain_next_to_encrypted"]["signed"] = "bogus"
+                    plain_signed = False        # (no hand-over corruption on top)
             if not pa.get("sigalg"):
                 pa["sigalg"], pa["digalg"] = r.pick(SIGALGS), r.pick(DIGALGS)
             if faulty and plain_signed:
@@ -653,6 +659,12 @@ def gen_c05(seed, tier):
                                   "recipient": r.pick(["https://evil.example/acs", fed.sp_endpoints(sp)["acs_post"]])}
                 if d["second_sc"]["irt"] is None:
                     del d["second_sc"]["irt"]
+                if r.chance(0.5):
+                    # every confirmation's Recipient counts, not only the last one's: an earlier confirmation
+                    # addressed elsewhere, the last one addressed to this SP, conversation information supplied
+                    d["recipient"] = r.pick([fed.sp_endpoints(r.pick(others))["acs_post"], "https://evil.example/acs"])
+                    d["second_sc"] = {"recipient": r.pick([fed.sp_endpoints(sp)["acs_post"], fed.sp_entity(sp)])}
+                    conv = True
         if d:
             p["dialect"] = d
         if r.chance(0.2):
@@ -740,6 +752,12 @@ def gen_c03(seed, tier):
             kw["enc_keys"] = [6 + i]
             kw["md_strip_use"] = g.rl.pick([None, None, "encryption", "all", "signing"])
         idps.append(g.add_idp(i, **kw))
+    members = list(idps)
+    if g.rl.chance(0.35):
+        # one more federation member that nobody logs in at: a stand-alone authentication authority (or an entity
+        # publishing a generic RoleDescriptor-free subset of its roles) with a signing key of its own
+        members.append(g.add_idp(nidp, key=8, md_only_roles=g.rl.pick([["AuthnAuthorityDescriptor"], ["AuthnAuthorityDescriptor"],
+                                                                        ["PDPDescriptor"], ["AttributeAuthorityDescriptor"]])))
     nsp = g.rl.pick([1, 2])
     sps = []
     for i in range(nsp):
@@ -795,7 +813,9 @@ def gen_c03(seed, tier):
         p["lifetime"] = 3600
         if not clean and r.chance(0.25):
             # claimed Issuer x actual signing key: this IdP asserts under another federation member's name
-            other = r.pick([x for x in idps if x is not idp])
+            other = r.pick([x for x in members if x is not idp])
+            if len(members) > len(idps) and r.chance(0.5):
+                other = members[-1]
             which = r.pick(["both", "response", "assertion"])
             claimed = fed.idp_entity(other["name"])
             if r.chance(0.35):
@@ -922,7 +942,7 @@ def gen_c17(seed, tier):
             continue
         fk = r.pick(["stale-enc-second", "stale-enc-none", "expire", "foreign-audience", "unsolicited-replay",
                      "handover", "misdeliver", "scd-irt", "missing-assertion-sig", "dup", "enc-cert-appears",
-                     "enc-cert-appears", "enc-tool-fault"])
+                     "enc-cert-appears", "enc-tool-fault", "second-in-wrapper"])
         kw = {}
         after = []
         if fk == "enc-tool-fault":
@@ -977,6 +997,13 @@ def gen_c17(seed, tier):
                 p["sign_assertion"] = True
                 if not p.get("sigalg"):
                     p["sigalg"], p["digalg"] = r.pick(SIGALGS), r.pick(DIGALGS)
+        elif fk == "second-in-wrapper":
+            # two assertions come out of one EncryptedAssertion element: the encrypted, genuinely signed one and,
+            # behind the EncryptedData, one more in the clear - unsigned, signed, or signed and edited afterwards
+            p["sign_assertion"] = True
+            p["dialect"] = {"plain_next_to_encrypted": {"where": "wrapper", "signed": r.pick(["bogus", "bogus", True, False])}}
+            if not p.get("sigalg"):
+                p["sigalg"], p["digalg"] = r.pick(SIGALGS), r.pick(DIGALGS)
         elif fk == "scd-irt":
             p["dialect"] = {"scd_irt": "id-someoneelse0000009"}
         elif fk == "handover":
